@@ -37,6 +37,13 @@ theorem c08_fix_sizeKws (sz : SizeOpts) :
   · cases sz.max <;> simp [optKw, fixKws, kw, keyIs]
   · cases sz.min <;> simp [optKw, fixKws, kw, keyIs]
 
+theorem c08_fix_sizeKws_obj (sz : SizeOpts) :
+    fixKws (optKw "maxProperties" (sz.max.map natJ)) = optKw "maxProperties" (sz.max.map natJ)
+    ∧ fixKws (optKw "minProperties" (sz.min.map natJ)) = optKw "minProperties" (sz.min.map natJ) := by
+  constructor
+  · cases sz.max <;> simp [optKw, fixKws, kw, keyIs]
+  · cases sz.min <;> simp [optKw, fixKws, kw, keyIs]
+
 theorem c08_fix_uniqKw (u : Bool) :
     fixKws (optKw "uniqueItems" (if u then some (.bool true) else none))
       = optKw "uniqueItems" (if u then some (.bool true) else none) := by
@@ -71,7 +78,7 @@ theorem c08_fix_tupKws (u : Bool) (ss : List PyVal) :
 
 theorem c08_fix_mapKws (key : Option FieldDecl) (vs : Option PyVal) (sz : SizeOpts) :
     fixKws (mapKws key vs sz) = mapKws key (vs.map dialectFix) sz := by
-  simp only [mapKws, c08_fixKws_append, (c08_fix_sizeKws sz).1, (c08_fix_sizeKws sz).2]
+  simp only [mapKws, c08_fixKws_append, (c08_fix_sizeKws_obj sz).1, (c08_fix_sizeKws_obj sz).2]
   cases key with
   | none => simp [fixKws, kw, keyIs]
   | some k =>
